@@ -44,7 +44,8 @@ def run_rules(prop, overlay=None, tier="quick"):
 def _mutant_job(args):
     prop, name, rel, new_src, expect_rule, twin = args
     try:
-        ctx, _ = run_rules(prop, overlay={rel: new_src})
+        ctx, _ = run_rules(prop, overlay=new_src if isinstance(
+            new_src, dict) else {rel: new_src})
         fnd = ctx.findings()
         new, _old = engine.split_findings(prop, fnd)
         return (name, "ok", [(f.rule, f.key, f.msg) for f in new])
@@ -74,6 +75,36 @@ def selftest(prop, mod, seed):
                 continue
             jobs.append((prop, name, rel, new_src, rule, kind == "twin"))
             meta[name] = (kind, rule, rel)
+    # campaign artefacts: every behaviour-preserving refactoring produced by
+    # the independent agents is a twin of every property; every confirmed
+    # seeded breaking change this property's check reported is a mutant
+    from sa.mutate import apply_diff
+    verif = HERE.parent
+    camp_skipped = []
+    for diff in sorted(verif.glob("campaign/refactorings*/*/refactor*.diff")):
+        name = "rf:" + str(diff.relative_to(verif / "campaign"))
+        try:
+            ov = apply_diff(diff.read_text(), repo.src)
+        except StaleEdit as e:
+            camp_skipped.append((name, str(e)))
+            continue
+        jobs.append((prop, name, ",".join(ov), ov, None, True))
+        meta[name] = ("twin", None, ",".join(ov))
+    for d in sorted(verif.glob("seeded/*")):
+        try:
+            m = json.loads((d / "meta.json").read_text())
+        except (OSError, ValueError):
+            continue
+        if prop not in m.get("caught_by", []):
+            continue
+        name = "seeded:" + d.name
+        try:
+            ov = apply_diff((d / "patch.diff").read_text(), repo.src)
+        except StaleEdit as e:
+            camp_skipped.append((name, str(e)))
+            continue
+        jobs.append((prop, name, ",".join(ov), ov, None, False))
+        meta[name] = ("seeded", None, ",".join(ov))
     results = []
     if jobs:
         import multiprocessing as mp
@@ -86,6 +117,7 @@ def selftest(prop, mod, seed):
     problems = []
     killed = 0
     quiet = 0
+    seeded_rep = 0
     details = []
     for name, status, payload in results:
         kind, rule, rel = meta[name]
@@ -107,6 +139,17 @@ def selftest(prop, mod, seed):
             else:
                 problems.append(f"mutant survived: {name} ({rel}); "
                                 f"expected rule {rule}; got {payload}")
+        elif kind == "seeded":
+            # stricter than a module mutant: a confirmed breaking change
+            # must be reported as a violation, not as an analysis error
+            if status == "ok" and payload:
+                seeded_rep += 1
+                details.append({"mutant": name, "file": rel,
+                                "reported_by": payload[0][0],
+                                "construct": payload[0][1]})
+            else:
+                problems.append(f"seeded change no longer reported: {name} "
+                                f"({rel}): {status} {payload}")
         else:
             if status == "ok" and not payload:
                 quiet += 1
@@ -117,7 +160,11 @@ def selftest(prop, mod, seed):
                "mutants_reported": killed,
                "twins": sum(1 for v in meta.values() if v[0] == "twin"),
                "twins_silent": quiet,
+               "seeded_changes": sum(1 for v in meta.values()
+                                     if v[0] == "seeded"),
+               "seeded_changes_reported": seeded_rep,
                "stale_edits_skipped": skipped,
+               "campaign_diffs_not_applicable": camp_skipped,
                "mutant_details": details}
     return summary, problems
 
